@@ -498,4 +498,5 @@ func c17(p *model.Prog, r *report.Result) {
 	c17r9(p, r)
 	c17r10(p, r)
 	w5PullName(p, r, "C17.R11")
+	w7LastHasOutTs(p, r, "C17.R12")
 }
